@@ -118,11 +118,11 @@ Section Trust.
   Proof. apply trust_set_meta_dyn. Qed.
 
   (* a file linked by a filegroup carries no record *)
-  Lemma trust_set_file st rel c : Trust st -> Trust (set_out st rel (Some (mkE (File false c) None))).
+  Lemma trust_set_node st rel n : good n -> Trust st -> Trust (set_out st rel (Some (mkE n None))).
   Proof.
-    intros T. constructor.
+    intros Hn T. constructor.
     - intros rel' e H. rewrite set_out_outs in H. destruct (str_eqb rel' rel).
-      + injection H as <-. apply good_file.
+      + injection H as <-. exact Hn.
       + eapply (tr_good st T); eassumption.
     - intros rel' e dk po sk H Hr. rewrite set_out_outs in H. destruct (str_eqb rel' rel).
       + injection H as <-. discriminate.
@@ -137,6 +137,23 @@ Section Trust.
   Hypothesis W : WF r.
   Hypothesis Hdist : distinct_srcs r = true.
   Hypothesis HU : forall t, In t (r_targets r) -> U t.
+  (* tools are outside the Trust proofs; the trees the filegroups link (files or directories) are good *)
+  Hypothesis Hnt : forall t, In t (r_targets r) -> tool_paths r t = [].
+  Hypothesis Hsg : forall t f n, In t (r_targets r) -> is_filegroup t = true -> In f (outputs t) ->
+    fg_src r (join (t_pkg t) f) = Some n -> good n.
+
+  Lemma source_key_notools t st : In t (r_targets r) ->
+    source_key r st t = option_map key_of (gather (read r st) (iter_sources r t)).
+  Proof.
+    intros Ht. unfold source_key. rewrite (Hnt t Ht). cbn [gather anon_ins map key_of].
+    destruct (gather (read r st) (iter_sources r t)) as [a|]; [|reflexivity]. cbn [option_map]. rewrite app_nil_r. reflexivity.
+  Qed.
+
+  Lemma gather_in_notools t st : In t (r_targets r) -> gather_in r st t = gather (read r st) (all_paths r t).
+  Proof.
+    intros Ht. unfold gather_in. rewrite (Hnt t Ht). cbn [gather anon_ins map].
+    destruct (gather (read r st) (all_paths r t)) as [a|]; [|reflexivity]. rewrite app_nil_r. reflexivity.
+  Qed.
 
   Lemma iter_is_all t : In t (r_targets r) -> iter_sources r t = all_paths r t.
   Proof.
@@ -339,7 +356,7 @@ Section Trust.
     assert (Hres : forall ins, result t ins = act (t_kind t) (outputs t) ins) by (intros ins; unfold result; rewrite Hcm; reflexivity).
     assert (Hfull : forall st, full_outs st t = outputs t) by (intros st; unfold full_outs; rewrite Hcm; reflexivity).
     assert (Hsk : source_key r (rn_st rn) t = option_map key_of (gather (read r (rn_st rn)) (all_paths r t)))
-      by (unfold source_key; rewrite Hiter; reflexivity).
+      by (rewrite (source_key_notools t _ Ht), Hiter; reflexivity).
     destruct (needs_build r (rn_st rn) t) eqn:Enb; cbn [negb].
     - rewrite Hsk. destruct (gather (read r (rn_st rn)) (all_paths r t)) as [ins|] eqn:Eg; cbn [option_map].
       2:{ unfold fail_run. cbn [rn_st rn_failed]. split; [apply trust_remove; exact T|].
@@ -369,7 +386,7 @@ Section Trust.
         * intros o Ho. destruct (alookup_names cached o Ho) as [n Hn]. rewrite Hn.
           unfold out_of. rewrite (Hexact o n (alookup_some_in _ _ _ Hn)). reflexivity.
       + (* the command runs *)
-        unfold run_action. rewrite Eg.
+        unfold run_action. rewrite (gather_in_notools t _ Ht), Eg.
         destruct (act (t_kind t) (outputs t) (tmp_ins ins)) as [news|] eqn:Ea.
         2:{ cbn [rn_st rn_failed]. split; [apply trust_remove; exact T|].
             split; [apply claimed_frame; intros rel Hn; apply remove_outputs_outs; exact Hn|reflexivity]. }
@@ -443,7 +460,7 @@ Section Trust.
     pose proof (HU t Ht) as Ut. pose proof (iter_is_all t Ht) as Hiter.
     unfold rule_spec, build_rule_od.
     assert (Hsk : source_key r (rn_st rn) t = option_map key_of (gather (read r (rn_st rn)) (all_paths r t)))
-      by (unfold source_key; rewrite Hiter; reflexivity).
+      by (rewrite (source_key_notools t _ Ht), Hiter; reflexivity).
     assert (Hfull : forall st, full_outs st t = meta_outs st t) by (intros st; unfold full_outs; rewrite Hcm; reflexivity).
     assert (Hclaim : forall rel, ~ In rel (claimed r t) ->
               ~ In rel (map (out_rel t) (outputs t)) /\ ~ In rel (map (out_rel t) (found_names r t))).
@@ -534,19 +551,19 @@ Section Trust.
   Fixpoint missing (t : target) (fs : list str) : nat :=
     match fs with
     | [] => 0
-    | f :: fs' => match alookup (join (t_pkg t) f) (r_files r) with Some _ => missing t fs' | None => S (missing t fs') end
+    | f :: fs' => match fg_src r (join (t_pkg t) f) with Some _ => missing t fs' | None => S (missing t fs') end
     end.
 
   Definition fg_step (t : target) (rn : run) (f : str) : run :=
     let rel := join (t_pkg t) f in
-    match alookup rel (r_files r) with
+    match fg_src r rel with
     | None => fail_run rn t (rn_st rn)
     | Some c =>
         let st := rn_st rn in
         match s_outs st rel with
-        | Some e => if str_eqb (stream (e_node e)) c then rn
-                    else mkRun (set_out st rel (Some (mkE (File false c) None))) (rn_log rn) (rn_failed rn)
-        | None => mkRun (set_out st rel (Some (mkE (File false c) None))) (rn_log rn) (rn_failed rn)
+        | Some e => if str_eqb (stream (e_node e)) (stream c) then rn
+                    else mkRun (set_out st rel (Some (mkE c None))) (rn_log rn) (rn_failed rn)
+        | None => mkRun (set_out st rel (Some (mkE c None))) (rn_log rn) (rn_failed rn)
         end
     end.
 
@@ -554,32 +571,37 @@ Section Trust.
   Proof. reflexivity. Qed.
 
   Lemma fg_fold_spec t fs : forall rn, NoDup fs -> Trust (rn_st rn) ->
+    (forall f n, In f fs -> fg_src r (join (t_pkg t) f) = Some n -> good n) ->
     let rn' := fold_left (fg_step t) fs rn in
     Trust (rn_st rn')
     /\ rn_failed rn' = repeat (t_label t) (missing t fs) ++ rn_failed rn
-    /\ (forall f c, In f fs -> alookup (join (t_pkg t) f) (r_files r) = Some c ->
-          out_of (rn_st rn') t f = Some (File false c)).
+    /\ (forall f c, In f fs -> fg_src r (join (t_pkg t) f) = Some c ->
+          out_of (rn_st rn') t f = Some c).
   Proof.
-    induction fs as [|f fs IH]; intros rn Hnd T; cbn [fold_left].
+    induction fs as [|f fs IH]; intros rn Hnd T Hgs; cbn [fold_left].
     - cbn zeta. cbn [missing repeat app]. split; [exact T|]. split; [reflexivity|]. intros f c [].
     - inversion Hnd as [|? ? Hnot Hnd']; subst.
       assert (H1 : Trust (rn_st (fg_step t rn f))
-                   /\ rn_failed (fg_step t rn f) = (match alookup (join (t_pkg t) f) (r_files r) with Some _ => [] | None => [t_label t] end) ++ rn_failed rn
-                   /\ (forall c, alookup (join (t_pkg t) f) (r_files r) = Some c -> out_of (rn_st (fg_step t rn f)) t f = Some (File false c))).
-      { unfold fg_step. destruct (alookup (join (t_pkg t) f) (r_files r)) as [c|].
-        - destruct (s_outs (rn_st rn) (join (t_pkg t) f)) as [e|] eqn:Ee.
-          + destruct (str_eqb_spec (stream (e_node e)) c) as [Es|_].
+                   /\ rn_failed (fg_step t rn f) = (match fg_src r (join (t_pkg t) f) with Some _ => [] | None => [t_label t] end) ++ rn_failed rn
+                   /\ (forall c, fg_src r (join (t_pkg t) f) = Some c -> out_of (rn_st (fg_step t rn f)) t f = Some c)).
+      { unfold fg_step. pose proof (Hgs f) as Hgf. destruct (fg_src r (join (t_pkg t) f)) as [c|].
+        - assert (Hgc : good c) by (apply (Hgf c); [left; reflexivity|reflexivity]).
+          destruct (s_outs (rn_st rn) (join (t_pkg t) f)) as [e|] eqn:Ee.
+          + destruct (str_eqb_spec (stream (e_node e)) (stream c)) as [Es|_].
             * split; [exact T|]. split; [reflexivity|].
               intros c' E. injection E as <-. unfold out_of, out_rel. rewrite Ee. cbn [option_map].
-              f_equal. apply good_inj; [eapply (tr_good _ T); exact Ee|apply good_file|exact Es].
-            * cbn [rn_st rn_failed]. split; [apply trust_set_file; exact T|]. split; [reflexivity|].
+              f_equal. apply good_inj; [eapply (tr_good _ T); exact Ee|exact Hgc|exact Es].
+            * cbn [rn_st rn_failed]. split; [apply trust_set_node; assumption|]. split; [reflexivity|].
               intros c' E. injection E as <-. unfold out_of, out_rel. rewrite set_out_same. reflexivity.
-          + cbn [rn_st rn_failed]. split; [apply trust_set_file; exact T|]. split; [reflexivity|].
+          + cbn [rn_st rn_failed]. split; [apply trust_set_node; assumption|]. split; [reflexivity|].
             intros c' E. injection E as <-. unfold out_of, out_rel. rewrite set_out_same. reflexivity.
         - unfold fail_run. cbn [rn_st rn_failed]. split; [exact T|]. split; [reflexivity|]. intros c E. discriminate. }
-      destruct H1 as (T1 & Hf1 & Ho1). destruct (IH (fg_step t rn f) Hnd' T1) as (T2 & Hf2 & Ho2).
+      destruct H1 as (T1 & Hf1 & Ho1).
+      assert (Hgs' : forall g n, In g fs -> fg_src r (join (t_pkg t) g) = Some n -> good n)
+        by (intros g n Hg; apply Hgs; right; exact Hg).
+      destruct (IH (fg_step t rn f) Hnd' T1 Hgs') as (T2 & Hf2 & Ho2).
       cbn zeta. split; [exact T2|]. split.
-      + rewrite Hf2, Hf1. cbn [missing]. destruct (alookup (join (t_pkg t) f) (r_files r)); cbn [app]; [reflexivity|].
+      + rewrite Hf2, Hf1. cbn [missing]. destruct (fg_src r (join (t_pkg t) f)); cbn [app]; [reflexivity|].
         change (t_label t :: rn_failed rn) with (repeat (t_label t) 1 ++ rn_failed rn).
         rewrite app_assoc, <- repeat_app. f_equal. f_equal. lia.
       + intros g c [<-|Hg] Hc; [|apply Ho2; assumption].
@@ -589,7 +611,7 @@ Section Trust.
         { induction fs' as [|h fs' IHf]; intros rn0 Hn; cbn [fold_left]; [reflexivity|].
           rewrite IHf by (intros Hi; apply Hn; right; exact Hi).
           assert (Hne : join (t_pkg t) f <> join (t_pkg t) h) by (intros E; apply join_inj in E; apply Hn; left; symmetry; exact E).
-          unfold fg_step. destruct (alookup (join (t_pkg t) h) (r_files r)); [|reflexivity].
+          unfold fg_step. destruct (fg_src r (join (t_pkg t) h)); [|reflexivity].
           destruct (s_outs (rn_st rn0) (join (t_pkg t) h)); [destruct (str_eqb _ _); [reflexivity|]|];
             cbn [rn_st]; apply set_out_other; exact Hne. }
         unfold out_of, out_rel in *. rewrite Hfr by exact Hnot. apply Ho1. exact Hc.
@@ -601,8 +623,8 @@ Section Trust.
   Definition outcome (st : store) (t : target) : option (list (str * node)) :=
     if is_filegroup t then
       match missing t (outputs t) with
-      | O => Some (map (fun f => (f, match alookup (join (t_pkg t) f) (r_files r) with
-                                     | Some c => File false c | None => File false [] end)) (outputs t))
+      | O => Some (map (fun f => (f, match fg_src r (join (t_pkg t) f) with
+                                     | Some c => c | None => File false [] end)) (outputs t))
       | S _ => None
       end
     else match gather (read r st) (all_paths r t) with
@@ -623,10 +645,10 @@ Section Trust.
        | None => rn_failed rn' = repeat (t_label t) (fail_count t) ++ rn_failed rn
        end.
 
-  Lemma missing_zero t fs : missing t fs = 0 -> forall f, In f fs -> exists c, alookup (join (t_pkg t) f) (r_files r) = Some c.
+  Lemma missing_zero t fs : missing t fs = 0 -> forall f, In f fs -> exists c, fg_src r (join (t_pkg t) f) = Some c.
   Proof.
     induction fs as [|g fs IH]; cbn [missing]; intros H f Hin; [destruct Hin|].
-    destruct (alookup (join (t_pkg t) g) (r_files r)) as [c|] eqn:E; [|discriminate].
+    destruct (fg_src r (join (t_pkg t) g)) as [c|] eqn:E; [|discriminate].
     destruct Hin as [<-|Hin]; [exists c; exact E|apply IH; assumption].
   Qed.
 
@@ -650,21 +672,22 @@ Section Trust.
     pose proof (outputs_nodup done t todo Hs) as Hnd.
     assert (Ht : In t (r_targets r)) by (rewrite Hs; apply in_or_app; right; left; reflexivity).
     destruct (is_filegroup t) eqn:Efg.
-    - rewrite build_filegroup_fold. destruct (fg_fold_spec t (outputs t) rn Hnd T) as (T' & Hf & Ho).
+    - rewrite build_filegroup_fold.
+      destruct (fg_fold_spec t (outputs t) rn Hnd T (fun f n Hf => Hsg t f n Ht Efg Hf)) as (T' & Hf & Ho).
       assert (Hcm : could_modify t = false) by (unfold could_modify; unfold is_filegroup in Efg; destruct (t_kind t); try discriminate; reflexivity).
       split; [exact T'|].
       split; [rewrite <- build_filegroup_fold; apply claimed_frame; apply build_filegroup_frame|].
       split; [intros l _; rewrite <- build_filegroup_fold, build_filegroup_dyn; reflexivity|].
       destruct (missing t (outputs t)) eqn:Em.
       + split; [exact Hf|].
-        assert (Hnames : map fst (map (fun f => (f, match alookup (join (t_pkg t) f) (r_files r) with
-                                     | Some c => File false c | None => File false [] end)) (outputs t)) = outputs t)
+        assert (Hnames : map fst (map (fun f => (f, match fg_src r (join (t_pkg t) f) with
+                                     | Some c => c | None => File false [] end)) (outputs t)) = outputs t)
           by (rewrite map_map; cbn [fst]; apply map_id).
         rewrite Hnames. split; [unfold full_outs; rewrite Hcm; reflexivity|].
         split; [intros o Hin; apply out_rels_claimed; unfold out_rels; apply in_map; exact Hin|].
         intros o Hin. destruct (missing_zero t _ Em o Hin) as [c0 Hc].
-        assert (Hl : alookup o (map (fun f => (f, match alookup (join (t_pkg t) f) (r_files r) with
-                                     | Some c => File false c | None => File false [] end)) (outputs t)) = Some (File false c0)).
+        assert (Hl : alookup o (map (fun f => (f, match fg_src r (join (t_pkg t) f) with
+                                     | Some c => c | None => File false [] end)) (outputs t)) = Some c0).
         { apply alookup_in.
           - rewrite Hnames. exact Hnd.
           - apply in_map_iff. exists o. rewrite Hc. split; [reflexivity|exact Hin]. }
@@ -684,7 +707,7 @@ Section Trust.
           + cbn [rn_st]. cbn [s_dyn set_meta set_meta_dyn]. unfold upd. apply str_eqb_neq in Hl. rewrite Hl.
             clear. generalize (rn_st rn) as st0. induction cached as [|on cached IH]; intros st0; cbn [fold_left]; [reflexivity|].
             rewrite IH. reflexivity.
-          + unfold run_action. destruct (gather _ _) as [ins|].
+          + unfold run_action. destruct (gather_in _ _ _) as [ins|].
             2:{ unfold fail_run. cbn [rn_st]. unfold remove_outputs. rewrite remove_fold_dyn. reflexivity. }
             destruct (act _ _ _) as [news|].
             2:{ cbn [rn_st]. unfold remove_outputs. rewrite remove_fold_dyn. reflexivity. }
@@ -721,12 +744,9 @@ Section Trust.
     exists l d o, In l (label_srcs (t_srcs t)) /\ In d done /\ t_label d = l /\ In o (outputs d) /\ snd p = out_rel d o.
   Proof.
     intros Hs Hp Hg. unfold all_paths in Hp. apply in_flat_map in Hp. destruct Hp as [x [Hx Hp]].
-    destruct x as [f|l]; cbn [src_paths] in Hp.
+    destruct x as [f|l|l]; cbn [src_paths] in Hp; [| |destruct Hp].
     - destruct Hp as [<-|[]]. discriminate.
-    - assert (Hl : In l (label_srcs (t_srcs t))).
-      { clear -Hx. induction (t_srcs t) as [|y ys IH]; [destruct Hx|]. destruct Hx as [->|Hx]; cbn [label_srcs].
-        - left. reflexivity.
-        - destruct y; [apply IH; exact Hx|right; apply IH; exact Hx]. }
+    - assert (Hl : In l (label_srcs (t_srcs t))) by (apply label_srcs_label; exact Hx).
       destruct (wf_topo r W done t todo Hs l Hl) as [d [Hd Hf]]. rewrite Hf in Hp.
       apply in_map_iff in Hp. destruct Hp as [o [<- Ho]]. exists l, d, o. repeat split; auto.
       eapply find_target_label. exact Hf.
@@ -861,7 +881,7 @@ Section Trust.
         + cbn [rn_st]. rewrite set_meta_other by exact Hlab.
           clear. generalize (rn_st rn) as st0. induction cached as [|on cached IH]; intros st0; cbn [fold_left]; [reflexivity|].
           rewrite IH. reflexivity.
-        + unfold run_action. destruct (gather _ _); [|unfold fail_run; cbn [rn_st]; rewrite remove_outputs_meta; reflexivity].
+        + unfold run_action. destruct (gather_in _ _ _); [|unfold fail_run; cbn [rn_st]; rewrite remove_outputs_meta; reflexivity].
           destruct (act _ _ _); [|cbn [rn_st]; rewrite remove_outputs_meta; reflexivity].
           destruct c; cbn [rn_st]; cbn [s_meta set_cache]; rewrite move_fold_meta; apply set_meta_other; exact Hlab. }
     rewrite Hmeta. apply Hm. right. exact Hu.
@@ -875,6 +895,22 @@ From PlzV Require Import Model.C01.
 Lemma restrict_incl r req t : In t (r_targets (restrict r req)) -> In t (r_targets r).
 Proof. unfold restrict. cbn [r_targets]. intros H. apply filter_In in H. apply H. Qed.
 
+Lemma tool_free_paths r : tool_free r = true -> forall t, In t (r_targets r) -> tool_paths r t = [].
+Proof.
+  unfold tool_free. intros H t Ht. rewrite forallb_forall in H. specialize (H t Ht). unfold tool_paths.
+  induction (t_srcs t) as [|x xs IH]; [reflexivity|]. cbn [forallb] in H. apply andb_prop in H. destruct H as [Hx Hxs].
+  cbn [flat_map]. rewrite (IH Hxs). destruct x; [reflexivity|reflexivity|discriminate].
+Qed.
+
+(* the trees linked by the filegroups of a step are among history_fg_srcs *)
+Lemma fg_srcs_of_in c r req t f n : In t (r_targets (restrict r req)) -> is_filegroup t = true -> In f (outputs t) ->
+  fg_src (restrict r req) (join (t_pkg t) f) = Some n -> In n (fg_srcs_of (HBuild c r req)).
+Proof.
+  intros Ht Hfg Hf Hn. cbn [fg_srcs_of]. apply in_flat_map. exists t. split; [exact Ht|]. rewrite Hfg.
+  apply in_flat_map. exists f. split; [exact Hf|].
+  change (fg_src (restrict r req) (join (t_pkg t) f)) with (fg_src r (join (t_pkg t) f)) in Hn. rewrite Hn. left. reflexivity.
+Qed.
+
 Section History.
   Variable U : target -> Prop.
   Variable good : node -> Prop.
@@ -887,24 +923,34 @@ Section History.
   Let TrustU := Trust U good.
 
   Lemma step_wf_parts c r req : step_wf (HBuild c r req) = true ->
-    WF (restrict r req) /\ distinct_srcs (restrict r req) = true.
-  Proof. cbn [step_wf]. intros H. apply andb_prop in H. destruct H as [H1 H2]. split; [apply wf_repo_WF; exact H1|exact H2]. Qed.
+    WF (restrict r req) /\ distinct_srcs (restrict r req) = true
+    /\ forall t, In t (r_targets (restrict r req)) -> tool_paths (restrict r req) t = [].
+  Proof.
+    cbn [step_wf]. intros H. apply andb_prop in H. destruct H as [H H3]. apply andb_prop in H. destruct H as [H1 H2].
+    split; [apply wf_repo_WF; exact H1|]. split; [exact H2|apply tool_free_paths; exact H3].
+  Qed.
 
   Lemma trust_history : forall h st, forallb step_wf h = true ->
-    (forall t, In t (history_targets h) -> U t) -> quiet_history h st = true -> TrustU st -> TrustU (run_history h st).
+    (forall t, In t (history_targets h) -> U t) -> (forall n, In n (history_fg_srcs h) -> good n) ->
+    quiet_history h st = true -> TrustU st -> TrustU (run_history h st).
   Proof.
-    induction h as [|s0 h IH]; intros st Hwf HU Hq T; [exact T|].
+    induction h as [|s0 h IH]; intros st Hwf HU Hgs Hq T; [exact T|].
     cbn [forallb] in Hwf. apply andb_prop in Hwf. destruct Hwf as [Hs Hwf].
     cbn [quiet_history] in Hq. apply andb_prop in Hq. destruct Hq as [Hq0 Hq].
     unfold run_history. cbn [fold_left]. apply IH; try assumption.
     - intros t Ht. apply HU. cbn [history_targets flat_map]. apply in_or_app. right. exact Ht.
+    - intros n Hn. apply Hgs. unfold history_fg_srcs. cbn [flat_map]. apply in_or_app. right. exact Hn.
     - destruct s0 as [c r req|]; cbn [do_hstep].
-      + destruct (step_wf_parts c r req Hs) as [W Hd].
+      + destruct (step_wf_parts c r req Hs) as (W & Hd & Hnt).
+        assert (Hsg : forall t f n, In t (r_targets (restrict r req)) -> is_filegroup t = true -> In f (outputs t) ->
+                  fg_src (restrict r req) (join (t_pkg t) f) = Some n -> good n).
+        { intros t f n Ht Hfg Hf Hn. apply Hgs. unfold history_fg_srcs. cbn [flat_map]. apply in_or_app. left.
+          eapply fg_srcs_of_in; eassumption. }
         unfold plz_build.
         assert (HUr : forall t, In t (r_targets (restrict r req)) -> U t).
         { intros t Ht. apply HU. cbn [history_targets flat_map]. apply in_or_app. left. apply restrict_incl in Ht. exact Ht. }
         apply negb_true_iff in Hq0. unfold plz_stale in Hq0.
-        destruct (builds_agree U good U_inj good_inj good_file act_good (restrict r req) W Hd HUr c c st st T T Hq0 Hq0) as [T' _].
+        destruct (builds_agree U good U_inj good_inj good_file act_good (restrict r req) W Hd HUr Hnt Hsg c c st st T T Hq0 Hq0) as [T' _].
         exact T'.
       + apply trust_wipe. exact T.
   Qed.
@@ -922,6 +968,7 @@ Section History.
   Theorem incremental_is_clean c h r req :
     forallb step_wf (h ++ [HBuild c r req]) = true ->
     (forall t, In t (history_targets (h ++ [HBuild c r req])) -> U t) ->
+    (forall n, In n (history_fg_srcs (h ++ [HBuild c r req])) -> good n) ->
     quiet_history (h ++ [HBuild c r req]) empty_store = true ->
     let incr := plz_build c r req (run_history h empty_store) in
     let clean := plz_build false r req empty_store in
@@ -929,14 +976,19 @@ Section History.
     /\ forall t, In t (r_targets (restrict r req)) -> ~ In (t_label t) (rn_failed clean) ->
        outs_of (rn_st incr) t = outs_of (rn_st clean) t /\ all_outs_of (rn_st incr) t = all_outs_of (rn_st clean) t.
   Proof.
-    intros Hwf HU Hq. rewrite forallb_app in Hwf. apply andb_prop in Hwf. destruct Hwf as [Hwfh Hlast].
+    intros Hwf HU Hgs Hq. rewrite forallb_app in Hwf. apply andb_prop in Hwf. destruct Hwf as [Hwfh Hlast].
     cbn [forallb] in Hlast. apply andb_prop in Hlast. destruct Hlast as [Hlast _].
-    destruct (step_wf_parts c r req Hlast) as [W Hd].
+    destruct (step_wf_parts c r req Hlast) as (W & Hd & Hnt).
+    assert (Hsg : forall t f n, In t (r_targets (restrict r req)) -> is_filegroup t = true -> In f (outputs t) ->
+              fg_src (restrict r req) (join (t_pkg t) f) = Some n -> good n).
+    { intros t f n Ht Hfg Hf Hn. apply Hgs. unfold history_fg_srcs. rewrite flat_map_app. apply in_or_app. right.
+      cbn [flat_map]. rewrite app_nil_r. eapply fg_srcs_of_in; eassumption. }
     destruct (quiet_history_app _ _ _ Hq) as [Hqh Hql]. cbn [quiet_history] in Hql.
     apply andb_prop in Hql. destruct Hql as [Hql _]. apply negb_true_iff in Hql. unfold plz_stale in Hql.
     assert (T : TrustU (run_history h empty_store)).
     { apply trust_history; try assumption.
       - intros t Ht. apply HU. unfold history_targets. rewrite flat_map_app. apply in_or_app. left. exact Ht.
+      - intros n Hn. apply Hgs. unfold history_fg_srcs. rewrite flat_map_app. apply in_or_app. left. exact Hn.
       - apply trust_empty. }
     cbn zeta. unfold plz_build.
     assert (HUr : forall t, In t (r_targets (restrict r req)) -> U t).
@@ -944,7 +996,7 @@ Section History.
       cbn [flat_map]. rewrite app_nil_r. apply restrict_incl in Ht. exact Ht. }
     assert (Hqc : stale_in false (restrict r req) (r_targets (restrict r req)) (mkRun empty_store [] []) = false).
     { apply (no_meta_quiet (restrict r req) W false (r_targets (restrict r req)) []); [reflexivity|]. intros t _. reflexivity. }
-    destruct (builds_agree U good U_inj good_inj good_file act_good (restrict r req) W Hd HUr c false
+    destruct (builds_agree U good U_inj good_inj good_file act_good (restrict r req) W Hd HUr Hnt Hsg c false
                 (run_history h empty_store) empty_store T (trust_empty U good) Hql Hqc) as (_ & Hf & Ho).
     split; [exact Hf|]. intros t Ht Hnf. apply Ho; [exact Ht|]. rewrite Hf. exact Hnf.
   Qed.
@@ -972,6 +1024,10 @@ Proof.
     + intros H. injection H as <-. rewrite map_map. cbn [snd]. apply Forall_forall. intros n Hn.
       apply in_map_iff in Hn. destruct Hn as [o' [<- _]]. eexists; reflexivity.
     + discriminate.
+    + destruct (outputs t) as [|o [|o2 rest]]; try discriminate. intros H. injection H as <-.
+      cbn [map snd]. constructor; [eexists; reflexivity|constructor].
+    + destruct (outputs t) as [|o [|o2 rest]]; try discriminate. destruct (all_files _); [|discriminate].
+      intros H. injection H as <-. cbn [map snd]. constructor; [eexists; reflexivity|constructor].
     + discriminate.
   - discriminate.
   - destruct (outputs t) as [|o [|o2 rest]]; try discriminate. intros H. injection H as <-.
@@ -1017,8 +1073,26 @@ Qed.
 
 (* C01 / C02, partial: histories without directory outputs in which no target with output_dirs went through
    stale_flow; c = false is C01, c = true is C02 *)
+Lemma fg_src_shape r rel n : fg_src r rel = Some n -> (exists c, n = File false c) \/ (exists es, n = Dir es).
+Proof.
+  unfold fg_src. destruct (alookup rel (r_files r)) as [c|].
+  - intros H. injection H as <-. left. exists c. reflexivity.
+  - unfold dir_node. destruct (below r rel); [discriminate|]. intros H. injection H as <-. right. eexists. reflexivity.
+Qed.
+
+Lemma fg_dir_free_files h : fg_dir_free h = true -> forall n, In n (history_fg_srcs h) -> is_file n.
+Proof.
+  unfold fg_dir_free. intros H n Hn. rewrite forallb_forall in H. specialize (H n Hn).
+  unfold history_fg_srcs in Hn. apply in_flat_map in Hn. destruct Hn as [s0 [_ Hn]].
+  destruct s0 as [c r req|]; [|destruct Hn]. cbn [fg_srcs_of] in Hn. apply in_flat_map in Hn. destruct Hn as [t [_ Hn]].
+  destruct (is_filegroup t); [|destruct Hn]. apply in_flat_map in Hn. destruct Hn as [f [_ Hn]].
+  destruct (fg_src r (join (t_pkg t) f)) as [m|] eqn:E; [|destruct Hn]. destruct Hn as [<-|[]].
+  destruct (fg_src_shape _ _ _ E) as [[c0 ->]|[es ->]]; [exists c0; reflexivity|discriminate].
+Qed.
+
 Theorem incremental_is_clean_files c h r req :
   wf_history (h ++ [HBuild c r req]) -> dir_free (h ++ [HBuild c r req]) ->
+  fg_dir_free (h ++ [HBuild c r req]) = true ->
   quiet_history (h ++ [HBuild c r req]) empty_store = true ->
   let incr := plz_build c r req (run_history h empty_store) in
   let clean := plz_build false r req empty_store in
@@ -1027,14 +1101,14 @@ Theorem incremental_is_clean_files c h r req :
   /\ forall t, In t (r_targets (restrict r req)) -> ~ In (t_label t) (rn_failed clean) ->
      outs_of (rn_st incr) t = outs_of (rn_st clean) t /\ all_outs_of (rn_st incr) t = all_outs_of (rn_st clean) t.
 Proof.
-  intros [Hwf Hkeys] Hdf Hq.
+  intros [Hwf Hkeys] Hdf Hfd Hq.
   set (U := fun t => In t (history_targets (h ++ [HBuild c r req]))).
   assert (H1 : forall t t', U t -> U t' -> t_defkey t = t_defkey t' -> t = t') by (intros t t' Ht Ht'; apply Hkeys; assumption).
   assert (H2 : forall c, is_file (File false c)) by (intros c0; exists c0; reflexivity).
   assert (H3 : forall t ins news, U t -> Forall is_file (map snd ins) ->
              result t ins = Some news -> Forall is_file (map snd news))
     by (intros t ins news Ut; apply result_files; apply Hdf; exact Ut).
-  destruct (incremental_is_clean U is_file H1 is_file_inj H2 H3 c h r req Hwf (fun t Ht => Ht) Hq) as [Hf Ho].
+  destruct (incremental_is_clean U is_file H1 is_file_inj H2 H3 c h r req Hwf (fun t Ht => Ht) (fg_dir_free_files _ Hfd) Hq) as [Hf Ho].
   cbn zeta in *. split; [unfold run_ok; rewrite Hf; reflexivity|]. split; [exact Hf|exact Ho].
 Qed.
 
